@@ -1,5 +1,6 @@
 import CGV.Props.C06
 import CGV.Props.C06Steps
+import CGV.Props.C06Trace
 #print axioms CGV.C06.C06_manual_eq_iter
 #print axioms CGV.C06.C06_all_is_last
 #print axioms CGV.C06.C06_chain
@@ -7,3 +8,7 @@ import CGV.Props.C06Steps
 #print axioms CGV.C06.C06_compose_partial
 #print axioms CGV.C06.step_guarantees
 #print axioms CGV.C06.C06_guarantees_every_step
+#print axioms CGV.C06.step_fragid_in_coarse
+#print axioms CGV.C06.C06_every_atom_stems_from_base
+#print axioms CGV.C06.C06_next_coarse_keys
+#print axioms CGV.C06.exExt_patch
